@@ -18,6 +18,7 @@ pub const SLOW_CALL_S: f64 = 20.0;
 pub static MAX_CALL_US: AtomicU64 = AtomicU64::new(0);
 
 fn observe<T>(what: &str, len: usize, f: impl FnOnce() -> T) -> Result<T, Fail> {
+    crate::hang::label(what);
     let t0 = Instant::now();
     let r = guard(f);
     let dt = t0.elapsed();
@@ -45,6 +46,13 @@ fn exercise_record(what: &str, rec: &Record, n: usize) -> Check {
 
 /// The whole C06 oracle for one byte string.
 pub fn check_bytes(b: &[u8]) -> Check {
+    crate::hang::enter(b);
+    let r = check_bytes_inner(b);
+    crate::hang::leave();
+    r
+}
+
+fn check_bytes_inner(b: &[u8]) -> Check {
     let n = b.len();
     // as a volume file
     let file = observe("File::new", n, || File::new(b.to_vec()))?;
@@ -495,7 +503,7 @@ pub fn replay(sub: &str, case: &Value) -> Check {
     let r = match sub {
         "corrupted-containers" => check_case(&from_case::<Case>(case)?),
         "random-bytes" => check_bytes(&from_case::<Vec<u8>>(case)?),
-        "bytes" | "every-length-0-64" | "every-truncation-point" | "fuzz" => {
+        "bytes" | "every-length-0-64" | "every-truncation-point" | "fuzz" | "nontermination" => {
             let b: Vec<u8> = from_case(case.get("bytes").unwrap_or(case))?;
             check_bytes(&b)
         }
